@@ -37,7 +37,9 @@ namespace {
         M_JOIN = 5,
         M_SYNC_WAIT_OS = 6,
         M_MUTEX = 7,
-        M_COUNT = 8
+        M_TIMED_CV = 8,     // condition_variable::wait_for(pred) with a far deadline: the waiter yields (boosted) instead of suspending
+        M_TIMED_SEM = 9,    // counting_semaphore::try_acquire_for with a far deadline
+        M_COUNT = 10
     };
 
     struct Pair
@@ -117,6 +119,40 @@ namespace {
             p.sem.acquire();
             resumed_check(p, idx, false);
             break;
+        case M_TIMED_CV:
+        {
+            std::unique_lock<pika::mutex> l(p.mtx);
+            p.registered = true;
+            ev(1, idx, p.mech);
+            // pika tasks implement a timed wait by yielding (boosted) until the deadline: the wait returns at
+            // its deadline, notified or not. One timed wait; if the wake-up did not make it before the
+            // deadline, an untimed wait follows (no polling loop: it would starve the waker, see C01).
+            bool r = p.cv.wait_for(l, std::chrono::microseconds(300 + 500 * p.extra), [&p] { return p.flag; });
+            VH_CHECK(r == p.flag, "C02.timed_wait_result", "waiter %d: wait_for(pred) returned %d, predicate %d", idx, (int) r,
+                (int) p.flag);
+            if (!r)
+            {
+                probe("timed_cv_wait_timed_out");
+                p.cv.wait(l, [&p] { return p.flag; });
+            }
+            resumed_check(p, idx, false);
+            probe("timed_cv_wait_woken");
+            break;
+        }
+        case M_TIMED_SEM:
+        {
+            p.registered = true;
+            ev(1, idx, p.mech);
+            bool r = p.sem.try_acquire_for(std::chrono::microseconds(300 + 500 * p.extra));
+            if (!r)
+            {
+                probe("timed_sem_wait_timed_out");
+                p.sem.acquire();
+            }
+            resumed_check(p, idx, false);
+            probe("timed_sem_wait_woken");
+            break;
+        }
         case M_LATCH:
             p.registered = true;
             ev(1, idx, p.mech);
@@ -194,6 +230,7 @@ namespace {
         case M_RAW:
             p.ctx.resume("C02 raw resume");
             break;
+        case M_TIMED_CV:
         case M_CV:
         {
             if (os)
@@ -213,6 +250,7 @@ namespace {
             for (int i = 0; i < p.extra; i++) p.cv.notify_all();
             break;
         }
+        case M_TIMED_SEM:
         case M_SEM:
             p.sem.release();
             break;
